@@ -2,7 +2,8 @@
 import random
 
 WORDS = ['alpha', 'beta', 'gamma', 'delta', 'eta', 'new', 'old', 'item', 'the', 'of', 'report', 'data', '2020', 'x', 'y',
-         '&amp;amp;', '&lt;b&gt;', 'café', 'naïve', '☃', 'A&amp;B', '~EMPTY~', 'Link:', 'SPACER', '&quot;q&quot;', "it's"]
+         '&amp;amp;', '&lt;b&gt;', 'café', 'naïve', '☃', 'A&amp;B', '~EMPTY~', 'Link:', 'SPACER', '&quot;q&quot;', "it's",
+         'e\u0301cole', '\u2126hm', 'x\u0307\u0323', '\u1100\u1161', '\U0001F600']
 INLINE = ['b', 'i', 'em', 'span', 'strong', 'code', 'u', 'small']
 BLOCK = ['p', 'div', 'h1', 'h2', 'h3', 'blockquote', 'section', 'article', 'pre', 'header', 'footer']
 HREFS = ['/a', '/b', 'http://x.test/1', 'http://x.test/2?q=1&amp;r=2', '#frag', 'http://web.archive.org/web/20190101000000/http://x.test/',
